@@ -187,6 +187,25 @@ fn compile_text(src: &str) -> Value {
 }
 
 /// C12: render a compiled Model and its LinearModel and compile the renderings again.
+/// Lexical class of every index fragment of a flattened variable name (the part after each `_` that
+/// follows the base name): "int" canonical digits, "padded" digits with leading zeros, "ident" letters and
+/// digits starting with a letter, "other" anything the grammar has no token for (empty, sign, dot, blank).
+fn name_fragments(name: &str) -> Vec<&'static str> {
+    let body = name.trim_start_matches('$').trim_start_matches('_');
+    body.split('_')
+        .skip(1)
+        .map(|f| {
+            if !f.is_empty() && f.chars().all(|c| c.is_ascii_digit()) {
+                if f.len() > 1 && f.starts_with('0') { "padded" } else { "int" }
+            } else if f.chars().next().map(|c| c.is_alphabetic()).unwrap_or(false) && f.chars().all(|c| c.is_alphanumeric()) {
+                "ident"
+            } else {
+                "other"
+            }
+        })
+        .collect()
+}
+
 pub fn render_event(case: &Value) -> Value {
     let id = case["id"].as_str().unwrap_or("?");
     let model = if let Some(t) = case.get("text").and_then(|t| t.as_str()) {
@@ -210,6 +229,7 @@ pub fn render_event(case: &Value) -> Value {
         "modeltext": modeltext,
         "lmtext": lmtext,
         "lm": lm_bits(&lm),
+        "namefrags": lm.variables().iter().map(|n| json!({"name": n, "cls": name_fragments(n)})).collect::<Vec<_>>(),
         "from_model": compile_text(&modeltext),
         "from_lm": compile_text(&lmtext),
     })
